@@ -263,6 +263,11 @@ func (p *parser) typeName() string {
 		return "*" + p.typeName()
 	}
 	if p.accept("[") {
+		if p.peek().kind == "id" && p.peek().s == "ref" {
+			p.next()
+			p.expect("]")
+			return "[ref]" + p.typeName()
+		}
 		p.expect("]")
 		return "[]" + p.typeName()
 	}
